@@ -197,3 +197,196 @@ def to_scaffold_orientation(repo: Repo, L: Ledger, rule: str):
     ctor = [n for n in walk_shallow(ts.node) if isinstance(n, ast.Call) and dotted(n.func) == "Scaffold"]
     ok2 = len(ctor) == 1 and any(norm(a) == "self.rows" for a in [*ctor[0].args, *[k.value for k in ctor[0].keywords]])
     L.check(ok2, rule, ts.short + ":rows", "scaffold built from all rows of the result", "to_scaffold does not pass all rows of the overlap result", ts.loc())
+
+
+# --------------------------------------------------------------------------------------------------
+# row iterators of Scaffold (fragments / idx_fragments / gaps ...): a small interprocedural summary
+# --------------------------------------------------------------------------------------------------
+class RowIterRefuted(Exception):
+    pass
+
+
+def is_noise(stmt) -> bool:
+    """docstring / pass / a bare logging, print or assert-free diagnostic call: no effect on program data"""
+    if isinstance(stmt, ast.Pass):
+        return True
+    if isinstance(stmt, ast.Expr):
+        if isinstance(stmt.value, ast.Constant):
+            return True
+        if isinstance(stmt.value, ast.Call):
+            d = dotted(stmt.value.func) or ""
+            if d.startswith(("logging.", "log.", "logger.")) or d in ("print",):
+                # arguments must not themselves have effects
+                return not any(isinstance(n, ast.Call | ast.Yield | ast.YieldFrom | ast.Await | ast.NamedExpr) for a in [*stmt.value.args, *[k.value for k in stmt.value.keywords]] for n in ast.walk(a))
+    return False
+
+
+def row_iter_summary(repo: Repo, cls, func: Func, bind: dict | None = None, depth: int = 0):
+    """Summarise a generator method over ``self.rows``.
+
+    -> (row_type, shape) with shape 'row' | 'idx'  : yields exactly the rows r (or (i, r) with i r's own index in
+                                                     self.rows) with isinstance(r, row_type), each once, in order
+    raises RowIterRefuted(reason) when the method is a loop over the rows but a path of the loop body contradicts that
+    returns None when the shape is not one of the forms understood (caller: no verdict)
+    Forms: direct loop over self.rows / enumerate(self.rows) with conditional yield (any early-continue / nesting, decided
+    per path); `yield from self.h(T)`; loop over self.h(T) re-yielding the row or (index,row); return of a generator
+    expression over one of these."""
+    from ..flow import PathEnum, cond_facts
+
+    bind = bind or {}
+    if depth > 4:
+        return None
+
+    def type_of(n):
+        d = dotted(n)
+        if d in bind:
+            return bind[d]
+        return d
+
+    def callee_summary(call):
+        if not (isinstance(call, ast.Call) and isinstance(call.func, ast.Attribute) and norm(call.func.value) == "self"):
+            return None
+        h = repo.find_method(cls, call.func.attr)
+        if h is None:
+            return None
+        ps = h.params()[1:]
+        b = {}
+        for p, a in zip(ps, call.args):
+            b[p] = type_of(a)
+        for kw in call.keywords:
+            if kw.arg:
+                b[kw.arg] = type_of(kw.value)
+        return row_iter_summary(repo, cls, h, b, depth + 1)
+
+    def source(it):
+        """iterable expression -> ('rows'|'enum', None) for the raw rows, or ('sub', summary)"""
+        s = norm(it).replace(" ", "")
+        if s == "self.rows":
+            return ("rows", None)
+        if s == "enumerate(self.rows)":
+            return ("enum", None)
+        sm = callee_summary(it)
+        if sm is not None:
+            return ("sub", sm)
+        return None
+
+    body = [s for s in func.node.body if not is_noise(s)]
+    # return <genexp/listcomp>
+    if len(body) == 1 and isinstance(body[0], ast.Return) and isinstance(body[0].value, ast.GeneratorExp | ast.ListComp) and len(body[0].value.generators) == 1:
+        ge = body[0].value
+        g = ge.generators[0]
+        loop = ast.For(target=g.target, iter=g.iter, body=[ast.Expr(ast.Yield(ge.elt))], orelse=[])
+        for c in reversed(g.ifs):
+            loop.body = [ast.If(test=c, body=loop.body, orelse=[])]
+        ast.fix_missing_locations(ast.copy_location(loop, body[0]))
+        body = [loop]
+    if len(body) == 1 and isinstance(body[0], ast.Return) and isinstance(body[0].value, ast.Call):
+        return callee_summary(body[0].value)
+    if len(body) == 1 and isinstance(body[0], ast.Expr) and isinstance(body[0].value, ast.YieldFrom):
+        v = body[0].value.value
+        sm = callee_summary(v)
+        if sm is not None:
+            return sm
+        if isinstance(v, ast.GeneratorExp) and len(v.generators) == 1:
+            g = v.generators[0]
+            loop = ast.For(target=g.target, iter=g.iter, body=[ast.Expr(ast.Yield(v.elt))], orelse=[])
+            for c in reversed(g.ifs):
+                loop.body = [ast.If(test=c, body=loop.body, orelse=[])]
+            ast.fix_missing_locations(ast.copy_location(loop, body[0]))
+            body = [loop]
+        else:
+            return None
+    if not (len(body) == 1 and isinstance(body[0], ast.For) and not body[0].orelse):
+        return None
+    lp = body[0]
+    src = source(lp.iter)
+    if src is None:
+        return None
+    kind, sub = src
+    tgt = lp.target
+    if kind == "rows":
+        if not isinstance(tgt, ast.Name):
+            return None
+        iv, rv, base_type = None, tgt.id, None
+    else:
+        if kind == "sub" and sub[1] == "row":
+            if not isinstance(tgt, ast.Name):
+                return None
+            iv, rv, base_type = None, tgt.id, sub[0]
+        else:
+            if not (isinstance(tgt, ast.Tuple) and len(tgt.elts) == 2 and all(isinstance(e, ast.Name) for e in tgt.elts)):
+                return None
+            iv, rv = tgt.elts[0].id, tgt.elts[1].id
+            base_type = sub[0] if kind == "sub" else None
+    # decide per path of the loop body
+    types, shapes = set(), set()
+    n_paths = 0
+    for p in PathEnum((0,), exc_edges=False).block(lp.body):
+        n_paths += 1
+        if p.status not in ("fall", "continue"):
+            raise RowIterRefuted(f"the iteration is left with '{p.status}' before all rows were visited")
+        is_t = {}
+        other = []
+        for e in p.events:
+            if e.kind == "cond":
+                for t, v in cond_facts(e.node, e.val):
+                    if isinstance(t, ast.Call) and dotted(t.func) == "isinstance" and len(t.args) == 2 and isinstance(t.args[0], ast.Name) and t.args[0].id == rv:
+                        is_t[type_of(t.args[1])] = v
+                    else:
+                        other.append((norm(t), v))
+        ys = [n for e in p.events if e.kind == "stmt" for n in [e.node, *walk_shallow(e.node)] if isinstance(n, ast.Yield | ast.YieldFrom)]
+        for y in ys:
+            if isinstance(y, ast.YieldFrom):
+                return None
+            v = y.value
+            if isinstance(v, ast.Name) and v.id == rv:
+                shapes.add("row")
+            elif isinstance(v, ast.Tuple) and len(v.elts) == 2 and iv is not None and isinstance(v.elts[0], ast.Name) and v.elts[0].id == iv and isinstance(v.elts[1], ast.Name) and v.elts[1].id == rv:
+                shapes.add("idx")
+            else:
+                raise RowIterRefuted(f"yields '{norm(v)}', which is not the row (or (index, row)) being visited")
+        if len(ys) > 1:
+            raise RowIterRefuted("a row is yielded more than once on a path")
+        pos = [t for t, v in is_t.items() if v]
+        if ys:
+            if other:
+                # yielded only under an additional condition: some rows of the type are skipped when it is false —
+                # the complementary path shows that; here nothing to do
+                pass
+            if base_type is None and len(pos) != 1:
+                if is_t:
+                    return None  # typed by exclusion (`not isinstance(r, Gap)`): not decided here
+                raise RowIterRefuted("a row is yielded without being tested for its type")
+            types.add(pos[0] if pos else base_type)
+            if base_type is not None and pos and pos != [base_type]:
+                return None
+        else:
+            # a path that yields nothing must be one where the row is known not to be of the type
+            neg = [t for t, v in is_t.items() if not v]
+            if base_type is not None and not neg:
+                raise RowIterRefuted(f"a {base_type} row is skipped when " + (" and ".join(f"{t} is {v}" for t, v in other) or "a path yields nothing"))
+            if not neg:
+                raise RowIterRefuted("a row is skipped although it was not found to be of another type: " + (" and ".join(f"{t} is {v}" for t, v in other) or "no yield on a path"))
+            types.update(neg)
+    if len(types) != 1 or len(shapes) != 1:
+        if not shapes:
+            raise RowIterRefuted("no path yields a row")
+        raise RowIterRefuted(f"rows yielded under inconsistent tests/shapes ({sorted(map(str, types))}, {sorted(shapes)})")
+    shape = shapes.pop()
+    if shape == "idx" and kind == "sub" and sub[1] != "idx":
+        return None
+    return (types.pop(), shape)
+
+
+def check_row_iter(repo: Repo, L: Ledger, rule: str, cls, name: str, want_type: str, want_shape: str, ok_msg: str, bad_msg: str):
+    f = repo.find_method(cls, name)
+    if f is None:
+        raise AnalysisError(f"anchor {cls.name}.{name} vanished")
+    try:
+        sm = row_iter_summary(repo, cls, f)
+    except RowIterRefuted as e:
+        L.fail(rule, f"{cls.name}.{name}", f"{bad_msg}: {e}", f.loc())
+        return
+    if sm is None:
+        raise AnalysisError(f"{cls.name}.{name}: row iterator is not in a form the summary understands (direct loop over self.rows, delegation to a parameterised helper, generator expression)")
+    L.check(sm == (want_type, want_shape), rule, f"{cls.name}.{name}", ok_msg, f"{bad_msg}: it yields {sm[1]} items for rows of type {sm[0]}", f.loc())
